@@ -167,7 +167,7 @@ Record sentry := {
 Definition inst_entries (vs : list view) (idx : nat) (i : inst) : list sentry :=
   let rs := requests vs i in
   let broken := observable (i_kind i) && existsb (fun r => negb (req_compatible i r)) rs in
-  map (fun r => {| e_id := ident i r; e_name := r_name r; e_kind := req_akind i r; e_ikind := i_kind i;
+  map (fun r => {| e_id := ident i r; e_name := qualified i (r_name r); e_kind := req_akind i r; e_ikind := i_kind i;
                    e_filter := r_filter r; e_feeder := if broken then None else Some idx |})
       (filter (req_compatible i) rs).
 
@@ -319,3 +319,26 @@ Definition keep_identity (c : scfg) (w : window) (pts : points) : Prop :=
 (** "reports each measurement under its filtered attribute set, adding together streams that become identical" *)
 Definition filter_merged (c : scfg) (w : window) (pts : points) : Prop :=
   NoDup (map fst pts) /\ forall k, lookup k pts = opt_summ (s_kind c) (own_vals c w k).
+
+(** * Clauses that do not depend on the arrival order
+    Used to judge concurrent recording, where only the multiset of measurements is known:
+    whatever the order in which the measurements of a window reached the aggregator, no set is
+    reported twice, at most L sets are reported, every reported set is one of the (filtered) sets
+    measured or the overflow set, and totals / histogram counts are conserved. *)
+Definition order_free (c : scfg) (w : window) (pts : points) : Prop :=
+  NoDup (map fst pts) /\ at_most (s_limit c) pts /\
+  (forall k, In k (map fst pts) -> In k (map fst (filtered c w)) \/ k = overflow_set) /\
+  (sums_values (s_kind c) = true -> sum_conserved w pts) /\
+  (counts_values (s_kind c) = true -> count_conserved w pts).
+
+Fixpoint nodup_b (l : list aset) : bool :=
+  match l with [] => true | x :: r => negb (amem x r) && nodup_b r end.
+
+(** [offered]: the attribute sets recorded; [vals]: the values recorded; [lastv]: a last-value
+    stream (each reported value must be one of the recorded ones). *)
+Definition order_free_b (L : N) (sums counts lastv : bool) (offered : list aset) (vals : list Z) (pts : points) : bool :=
+  nodup_b (map fst pts) && at_most_b L pts &&
+  forallb (fun k => amem k offered || aset_eqb k overflow_set) (map fst pts) &&
+  (negb sums || (total pts =? zsum vals)%Z) &&
+  (negb counts || (total_count pts =? N.of_nat (length vals))) &&
+  (negb lastv || forallb (fun kp : aset * point => existsb (Z.eqb (fst (snd kp))) vals) pts).
